@@ -484,7 +484,7 @@ class C15(Check):
     }
     required_probes = [
         "in_place_kernel_launch", "launch_on_strided_view", "call_with_overlapping_array_arguments", "more_threads_than_outer_iterations", "policy_permuted", "policy_static", "policy_dynamic",
-        "target_gen", "target_ns2d", "target_ns3d", "target_passive", "target_solver", "target_interaction", "spreading_permuted_prange",
+        "executor_fidelity_checked_against_compiled_kernel", "target_gen", "target_ns2d", "target_ns3d", "target_passive", "target_solver", "target_interaction", "spreading_permuted_prange",
     ]
     tiers = {
         "quick": {"runs": 800, "batch": 6, "timeout": 900},
@@ -516,6 +516,7 @@ class C15(Check):
         if target == "gen":
             name, dim, o = combos()[gi]
             p.update({"gen": name, "dim": dim, "opts": o, "shape": list(rng.choice(SHAPES[dim])), "view": rng.choice(["contig", "contig", "padded"]), "repeats": 3})
+            p["fidelity"] = (gi % 8 == run % 8) if run < n_gen else rng.random() < 0.15
             p["precision"] = o["precision"]
         elif target in ("ns2d", "ns3d"):
             dim = 2 if target == "ns2d" else 3
@@ -590,6 +591,46 @@ class C15(Check):
             for th in thunks:
                 th()
         res.probe("kernels_built", len(new))
+        if p.get("fidelity"):
+            self._fidelity(new, dim, shape, real_t, p, res)
+
+    def _fidelity(self, kernels, dim, shape, real_t, p, res):
+        """Executor fidelity self-test (not a property oracle): the simulated kernel, run
+        sequentially, agrees with the genuinely compiled kernel on the same inputs to a few ulp."""
+        from pystencils.codegen.kernel import Kernel
+
+        orig_compile = Kernel.compile._orig
+        eps = float(np.finfo(real_t).eps)
+        saved = irsim.SimKernel.runtime
+        irsim.SimKernel.runtime = None
+        try:
+            for k in kernels:
+                compiled = orig_compile(k.kernel)
+                syn = ArgSynth(dim, shape, real_t, p["sub"] + 99 + k.uid, "contig")
+                kw = {}
+                for fname, prm in sorted(k.fields.items()):
+                    fld = prm.fields[0]
+                    kw[fname] = syn.array(fld.spatial_dimensions + fld.index_dimensions == len(shape) + 1, fname)
+                for prm in k.kernel.parameters:
+                    if not prm.is_field_parameter:
+                        kw[prm.name] = syn.scalar(prm.name)
+                a = {n: (v.copy() if isinstance(v, np.ndarray) else v) for n, v in kw.items()}
+                b = {n: (v.copy() if isinstance(v, np.ndarray) else v) for n, v in kw.items()}
+                with np.errstate(all="ignore"):
+                    k(**a)
+                    compiled(**b)
+                for n in a:
+                    if isinstance(a[n], np.ndarray):
+                        x, y = a[n].astype(np.float64), b[n].astype(np.float64)
+                        # generic data make some kernels ill-conditioned (divisions by 1 + c*chi near zero,
+                        # FMA contraction in the compiled code): gross-error threshold sqrt(eps) of the data scale
+                        fin = np.isfinite(y) & np.isfinite(x)
+                        tol = np.sqrt(eps) * max(1.0, float(np.max(np.abs(y[fin]), initial=0.0)))
+                        if not np.all(np.abs(x - y)[fin] <= tol):
+                            raise HarnessError(f"IR executor disagrees with the compiled kernel {k.name} ({p['gen']} {p['opts']}) on '{n}': max dev {float(np.max(np.abs(x - y))):.3e}")
+                res.probe("executor_fidelity_checked_against_compiled_kernel")
+        finally:
+            irsim.SimKernel.runtime = saved
 
     # ---- target: Navier-Stokes simulators
     def _make_flow(self, p, dim):
